@@ -13,6 +13,7 @@ from .. import env, gen
 from ..fakes import udp
 from ..prop import Prop
 from ..ref import broadcast as rb
+from ..ref import clock
 from ..selftest import broadcast_captures
 
 BATCH = 40
@@ -24,7 +25,8 @@ class C05(Prop):
     technique = "reference broadcast encoder -> loopback UDP -> running SwitcherBridge; callback-log monitor with unique tags and sentinel barriers; field-by-field oracle"
     rule = ("case = batch of 40 encoder-built broadcasts (all 9 types, both states) sent to a running bridge, closed by a sentinel broadcast; "
             "each of the 10 IPv4/MAC byte positions sweeps 0..255 across cases, names of 1..32 UTF-8 bytes in 5 scripts (every 7th exactly "
-            "32 bytes), every 8th broadcast re-sent unchanged (two deliveries expected), power/time/temperature over their full ranges with edges, positions 0..100, all enumerants, random filler in non-field "
+            "32 bytes), every 8th broadcast re-sent unchanged (two deliveries expected), half of the device ids re-used from earlier batches with "
+            "new details, host zone rotating over 14 zones, batches alternating between a custom port and the library's default ports, power/time/temperature over their full ranges with edges, positions 0..100, all enumerants, random filler in non-field "
             "bytes for half of them; distinct = (type, all field values); non-trivial = all (each is compared field by field)")
     level_text = ("Held-on-observed over tens of thousands of generated broadcasts through the real UDP path: exactly one delivery per "
                   "broadcast, of the class of its category, with every field equal to the encoder's input (OFF => power 0, current 0.0, "
@@ -51,10 +53,20 @@ class C05(Prop):
         self.port = self.rig.free_ports(1)[0]
         self.bridge = SwitcherBridge(self.rig.log.callback, [self.port])
         await self.bridge.start()
+        self.ports = [self.port]
+        self.default_bridge = None
+        if ctx["shard"] == 0 and all(udp.can_bind(p) for p in (20002, 10002, 20003, 10003)):
+            # (one worker only: all workers of a check share the namespace) inside the private network namespace the library's own default ports are free: use them as well
+            self.default_bridge = SwitcherBridge(self.rig.log.callback)
+            await self.default_bridge.start()
+            self.ports += [20002, 10002, 20003, 10003]
         self.tag = 0
+        self.pool = []   # device ids that keep broadcasting with changing details, as real devices do
 
     async def teardown(self, ctx):
         await self.bridge.stop()
+        if self.default_bridge is not None:
+            await self.default_bridge.stop()
         self.rig.uninstall(asyncio.get_running_loop())
 
     def cases(self, tier, seed, shard, nshards):
@@ -67,63 +79,75 @@ class C05(Prop):
         r = env.rng("C05", case["seed"], i)
         log = self.rig.log
         log.clear()
-        sent = {}
-        repeats = {}
+        zone = env.ZONES[i % len(env.ZONES)]
+        clock.set_zone(zone)     # nothing in a broadcast depends on the host zone: durations are durations
+        port = self.ports[i % len(self.ports)]
+        sent = []                # (desc, datagram) in send order, exact repeats included
         for k in range(BATCH):
             j = i * BATCH + k
-            self.tag = (self.tag + 1) % udp.SENTINEL_BASE
-            tag = f"{self.tag:06x}"
+            if self.pool and r.random() < 0.5:
+                tag = r.choice(self.pool)      # a device seen before, now with other details
+            else:
+                self.tag = (self.tag + 1) % udp.SENTINEL_BASE
+                tag = f"{self.tag:06x}"
+                if len(self.pool) < 16:
+                    self.pool.append(tag)
+                else:
+                    self.pool[r.randrange(16)] = tag
             model = gen.MODELS[j % 9]
             d = gen.broadcast_desc(r, model, j, tag)
             data = rb.encode(d, filler=r.randbytes(168) if k % 2 else None)
-            sent[tag] = (d, data)
-            self.rig.send(self.port, data)
+            sent.append((d, data))
+            self.rig.send(port, data)
             if k % 8 == 5:
                 # a device re-broadcasts its unchanged status: the very same bytes again are one more well-formed broadcast
-                self.rig.send(self.port, data)
-                repeats[tag] = repeats.get(tag, 1) + 1
-        res = await self.rig.barrier(self.port)
+                sent.append((d, data))
+                self.rig.send(port, data)
+                acc.count("exact_repeats_sent")
+        res = await self.rig.barrier(port)
         if res == "dropped":
             acc.count("batches_with_kernel_drops")
             acc.inconclusive_because("kernel dropped datagrams (drops>0 in /proc/net/udp)")
             return
-        delivered = {}
-        others = []
+        delivered, others = [], []
         for kind, payload in log.events:
             if kind == "device":
                 if not udp.is_sentinel(payload):
-                    delivered.setdefault(payload.device_id, []).append(payload)
+                    delivered.append(payload)
             else:
                 others.append((kind, payload))
         if res == "lost":
             acc.violation("sentinel-never-delivered", "a valid sentinel broadcast was consumed by the bridge but never reached the callback",
                           {"events": [str(o) for o in others][:5]})
-        for tag, (d, data) in sent.items():
-            acc.ev()
-            cat = rb.MODELS[d["model"]][2]
+        acc.ev(len(sent))
+        acc.count(f"batches_on_port_{'default' if port in (20002, 10002, 20003, 10003) else 'custom'}")
+        acc.count("devices_delivered", len(delivered))
+        for d, _ in sent:
             acc.count(f"sent_{d['model']}")
-            acc.sig(env.sig(sorted((k, str(v)) for k, v in d.items() if k != "device_id")))
-            devs = delivered.get(tag, [])
-            n_sent = repeats.get(tag, 1)
-            if n_sent > 1:
-                acc.ev(n_sent - 1)
-                acc.count("exact_repeats_sent", n_sent - 1)
-            if len(devs) != n_sent:
-                acc.violation(f"delivered-{len(devs)}-times-sent-{n_sent}:{cat}", f"{d['model']} broadcast sent {n_sent}x delivered {len(devs)} times; other events: {others[:3]}",
-                              {"desc": d, "datagram": data.hex(), "events": [str(o) for o in others][:5]})
-                continue
-            for field, got, want in rb.compare_device(devs[0], d):
-                acc.violation(f"field-wrong:{cat}:{field}", f"{d['model']} {d['state']}: {field} = {got!r}, want {want!r}",
-                              {"desc": d, "datagram": data.hex(), "field": field, "got": str(got), "want": str(want)})
-        for tag in delivered:
-            if tag not in sent:
-                acc.violation("delivery-without-send", f"callback got a device with id {tag} nobody sent", {})
+            acc.sig(env.sig(sorted((k2, str(v)) for k2, v in d.items() if k2 != "device_id")))
+        # loopback UDP between one socket pair is ordered and every broadcast yields exactly one delivery:
+        # the n-th delivery belongs to the n-th datagram
+        if len(delivered) != len(sent):
+            want_ids = [d["device_id"] for d, _ in sent]
+            got_ids = [getattr(x, "device_id", "?") for x in delivered]
+            pos = next((n for n, (a, b) in enumerate(zip(want_ids, got_ids)) if a != b), min(len(want_ids), len(got_ids)))
+            d, data = sent[min(pos, len(sent) - 1)]
+            cat = rb.MODELS[d["model"]][2]
+            again = pos > 0 and sent[pos][1] == sent[pos - 1][1] if pos < len(sent) else False
+            mech = (f"exact-repeat-not-delivered:{cat}" if again else f"delivery-count-wrong:{cat}") if len(delivered) < len(sent) else f"delivered-too-often:{cat}"
+            acc.violation(mech, f"{len(sent)} well-formed broadcasts sent to port {port} in {zone}, {len(delivered)} devices delivered; first difference at #{pos} "
+                          f"({d['model']}); other events: {others[:3]}", {"desc": d, "datagram": data.hex(), "events": [str(o) for o in others][:5]})
+        else:
+            for dev, (d, data) in zip(delivered, sent):
+                cat = rb.MODELS[d["model"]][2]
+                for field, got, want in rb.compare_device(dev, d):
+                    acc.violation(f"field-wrong:{cat}:{field}", f"{d['model']} {d['state']} on port {port}, host zone {zone}: {field} = {got!r}, want {want!r}",
+                                  {"desc": d, "datagram": data.hex(), "field": field, "got": str(got), "want": str(want), "zone": zone})
         if others:
             acc.violation("noise-on-well-formed-broadcast", f"well-formed broadcasts caused {others[:3]}", {"events": [str(o) for o in others][:8]})
-        acc.count("devices_delivered", sum(len(v) for v in delivered.values()))
         if i % 160 == 1:
-            d, data = next(iter(sent.values()))
-            acc.sample({"desc": d, "datagram": data.hex()[:120] + "...", "delivered_as": repr(delivered.get(d["device_id"], ["-"])[0])[:300]})
+            d, data = sent[0]
+            acc.sample({"port": port, "host_zone": zone, "desc": d, "datagram": data.hex()[:120] + "...", "delivered_as": repr(delivered[0] if delivered else "-")[:300]})
 
 
 PROP = C05()
